@@ -234,7 +234,7 @@ class Invalid(Component):
                (lambda: ssj.profile_table_for_join(L, [lk, "no such"])), AssertionError)
 
     def check(self, case, ctx):
-        L, R = canon.build_table(case["L"]), canon.build_table(case["R"])
+        L, R = canon.build_pair(case)
         C = gen.build_candset(case["candset"])
         tok = mk_tok(case["tok"])
         qtok = mk_tok({"kind": "qgram", "q": case["q"], "padding": True,
@@ -319,7 +319,7 @@ class Valid(Component):
         return valid_case(tier)
 
     def check(self, case, ctx):
-        L, R = canon.build_table(case["L"]), canon.build_table(case["R"])
+        L, R = canon.build_pair(case)
         nj = case["n_jobs"]
         at = case["attrs"]
         am, ae = case["allow_missing"], case["allow_empty"]
@@ -397,9 +397,10 @@ class Valid(Component):
                               "id", "val", "val", mk_tok(case["tok"]), simfns.get("jaccard"),
                               0.5, ">=", am, at, at, "l_", "r_", sc, nj, False)
         for T, nm in ((L, "left"), (R, "right")):
-            if len(T) >= 1:
-                expect_df("profile_table_for_join", ssj.profile_table_for_join, T)
-                expect_df("profile_table_for_join", ssj.profile_table_for_join, T, ["val", "id"])
+            # a table without rows is a valid argument here too (C15: "tables of any shape
+            # (no rows, ...)"); only C17's count guarantees are scoped to non-empty tables
+            expect_df("profile_table_for_join", ssj.profile_table_for_join, T)
+            expect_df("profile_table_for_join", ssj.profile_table_for_join, T, ["val", "id"])
         degenerate = any(s in ("zero", "allmissing", "allempty") for s in case["shapes"])
         ctx.nontrivial(degenerate)
         ctx.label("dtype=" + case["dtype"])
